@@ -35,7 +35,7 @@ func init() {
 		Rule: "built with -race. For each shared-object kind (type-1, type-2, type-3, type-5 issuer, generic batch issuer, *ecdsa.PrivateKey/PublicKey, ed25519.PrivateKey) a FRESH object (fresh VOPRF key object, so lazily initialised state is untouched) is used by G goroutines released from a barrier, each running a seeded mix of Evaluate/EvaluateBatch/Verify/TokenKeyID/TokenKey/Sign/Verify/Blind* with its own arguments (the ECDSA kinds use keys on two to four different curves at the same moment, the burst kind signs 150 digests back to back per goroutine on three curves); repeated R times per kind, kinds rotated over worker processes so that package-level sync.Once state is first touched concurrently. " +
 			"Oracle: zero race-detector reports (GORACE log, de-duplicated by the outermost pat-go frames of both stacks) and every call's result satisfies its sequential oracle (responses finalize under the caller's own request state to a token valid under the reference verifier, Verify verdicts as expected for valid and bit-flipped tokens, key ids equal the value computed on a second object, signatures verify under the standard library, blinded keys equal the sequential result). " +
 			"distinct_nontrivial = fresh objects on which at least two goroutines were observed inside pat-go at the same time (atomic in-flight counter)",
-		Floors:      []string{"objects_with_overlap", "evaluate_results_ok", "verify_results_ok", "keyid_results_ok", "sign_results_ok", "blind_results_ok", "batch_results_ok", "kind_type1", "kind_type2", "kind_type3", "kind_type5", "kind_batch", "kind_ecdsa", "kind_ecdsa-burst", "kind_ed25519"},
+		Floors:      []string{"objects_with_overlap", "evaluate_results_ok", "verify_results_ok", "keyid_results_ok", "sign_results_ok", "blind_results_ok", "batch_results_ok", "kind_type1", "kind_type2", "kind_type3", "kind_type5", "kind_batch", "kind_ecdsa", "kind_ecdsa-burst", "kind_ed25519", "tampered_twin_refused"},
 		Assumptions: []string{"the race detector reports conflicting accesses it observes; schedules that did not run are not judged", "each call has its own per-call arguments, as the statement requires"},
 		Race:        true,
 		Run:         runC17,
@@ -418,7 +418,55 @@ func c17Type3(run *c17Run, G int, seeds [][]byte, key interface{}) {
 	}
 	nameKey := iss.NameKey()
 	wantNK := nameKey.Marshal()
+	// twins: goroutines 2p and 2p+1 work on the SAME request at the same moment - one submits it as it is, the other
+	// submits tampered copies (same request key, one bit changed elsewhere). The honest one is served, no tampered
+	// copy ever is, whatever the issuer shares between calls that are in flight together.
+	type twin struct {
+		st        type3.RateLimitedTokenRequestState
+		enc       []byte
+		nonce, ch []byte
+	}
+	twins := make([]*twin, G/2)
+	for p := range twins {
+		r := core.NewRand(int64(p), "twin"+string(seeds[p]))
+		t := &twin{nonce: r.Bytes(32), ch: r.Bytes(12)}
+		var err error
+		t.st, err = type3.NewRateLimitedClientFromSecret(ScalarBytes(r, curve.Params().N, 48)).CreateTokenRequest(t.ch, t.nonce, ScalarBytes(r, curve.Params().N, 48), wantID, &rk.PublicKey, "origin.example", nameKey)
+		must(err)
+		t.enc = clone(t.st.Request().Marshal())
+		twins[p] = t
+	}
 	run.conc(G, func(gi int) {
+		if t := twins[(gi/2)%len(twins)]; gi/2 < len(twins) {
+			for k := 0; k < 4; k++ {
+				if gi%2 == 0 {
+					run.enter()
+					resp, _, err := iss.Evaluate(clone(t.enc))
+					run.leave()
+					if err != nil {
+						run.fail("an authentic request was refused while a tampered copy of it was being evaluated: " + err.Error())
+						break
+					}
+					tok, err := t.st.FinalizeToken(resp)
+					if err != nil || ref.VerifyRSAToken(&rk.PublicKey, ref.TokenBytes(3, t.nonce, t.ch, wantID, nil), tok.Authenticator) != nil {
+						run.fail(fmt.Sprintf("the response to an authentic request does not finalize to a valid token while a tampered copy was in flight: %v", err))
+						break
+					}
+					c.Class("evaluate_results_ok")
+				} else {
+					// bit positions outside the request key (bytes 2..50): name key id, ciphertext, signature
+					bit := []int{8*60 + 1, 8*100 + 3, 8*(len(t.enc)-1) + 7, 8*(len(t.enc)-50) + 2}[k%4]
+					run.enter()
+					resp, _, err := iss.Evaluate(flipBit(t.enc, bit))
+					run.leave()
+					if err == nil || resp != nil {
+						run.fail("a tampered copy of a request was served while the authentic request was being evaluated")
+						break
+					}
+					c.Class("tampered_twin_refused")
+				}
+			}
+		}
 		r := core.NewRand(int64(gi), string(seeds[gi]))
 		nonce, ch := r.Bytes(32), r.Bytes(10)
 		origin := []string{"origin.example", "other.example"}[gi%2]
@@ -711,67 +759,96 @@ func c17ECDSABurst(run *c17Run, seeds [][]byte, rep int) {
 
 func c17Ed25519(run *c17Run, G int, seeds [][]byte) {
 	c := run.c
-	seed := seeds[0]
-	// keys come from the standard library (same bytes): the fork's own first operation - and with it the
-	// first touch of its lazily built tables - happens inside the goroutines
-	spriv := stded.NewKeyFromSeed(seed)
-	priv := ed25519.PrivateKey(append([]byte{}, spriv...))
-	pub := []byte(spriv[32:])
+	// two key pairs used at the same moment (goroutine parity); keys come from the standard library (same bytes): the
+	// fork's own first operation - and with it the first touch of its lazily built tables - happens inside the goroutines
+	type kp struct {
+		spriv stded.PrivateKey
+		priv  ed25519.PrivateKey
+		pub   []byte
+		wantB []byte
+	}
 	blind := seeds[1%len(seeds)]
 	ctx := []byte("ctx")
-	A, _ := ref.EdDecode(pub)
-	wantB := ref.EdEncode(ref.EdMul(c15Scalar(blind, ctx), A))
+	var keys []*kp
+	for ki := 0; ki < 2; ki++ {
+		spriv := stded.NewKeyFromSeed(seeds[(2*ki)%len(seeds)])
+		k := &kp{spriv: spriv, priv: ed25519.PrivateKey(append([]byte{}, spriv...)), pub: []byte(spriv[32:])}
+		A, _ := ref.EdDecode(k.pub)
+		k.wantB = ref.EdEncode(ref.EdMul(c15Scalar(blind, ctx), A))
+		keys = append(keys, k)
+	}
+	// blinded-key signatures made concurrently, re-made sequentially after the join and compared byte for byte
+	type made struct {
+		ki  int
+		msg []byte
+		sig []byte
+	}
+	var mu sync.Mutex
+	var blindSigs []made
 	run.conc(G, func(gi int) {
 		r := core.NewRand(int64(gi), string(seeds[gi]))
 		msg := r.Bytes(r.IntN(60))
+		ki := gi % 2
+		k := keys[ki]
 		for j := 0; j < 4; j++ {
-			switch (j + gi) % 4 {
+			switch (j + gi/2) % 4 {
 			case 0:
 				run.enter()
-				sig := ed25519.Sign(priv, msg)
+				sig := ed25519.Sign(k.priv, msg)
 				run.leave()
-				if !bytes.Equal(sig, stded.Sign(spriv, msg)) {
-					run.fail("Sign differs from crypto/ed25519")
+				if !bytes.Equal(sig, stded.Sign(k.spriv, msg)) {
+					run.fail("Sign differs from crypto/ed25519 while another key signs at the same moment")
 				} else {
 					c.Class("sign_results_ok")
 				}
 			case 1:
-				sig := stded.Sign(spriv, msg)
+				sig := stded.Sign(k.spriv, msg)
 				bad := flipBit(sig, 9)
+				other := keys[1-ki]
 				run.enter()
-				ok1 := ed25519.Verify(pub, msg, sig)
-				ok2 := ed25519.Verify(pub, msg, bad)
+				ok1 := ed25519.Verify(k.pub, msg, sig)
+				ok2 := ed25519.Verify(k.pub, msg, bad)
+				ok3 := ed25519.Verify(other.pub, msg, sig)
 				run.leave()
-				if !ok1 || ok2 {
+				if !ok1 || ok2 || ok3 {
 					run.fail("Verify verdicts wrong under concurrency")
 				} else {
 					c.Class("verify_results_ok")
 				}
 			case 2:
 				run.enter()
-				bp, err := ed25519.BlindPublicKeyWithContext(pub, blind, ctx)
+				bp, err := ed25519.BlindPublicKeyWithContext(k.pub, blind, ctx)
 				var up ed25519.PublicKey
 				if err == nil {
 					up, err = ed25519.UnblindPublicKeyWithContext(bp, blind, ctx)
 				}
 				run.leave()
-				if err != nil || !bytes.Equal(bp, wantB) || !bytes.Equal(up, pub) {
+				if err != nil || !bytes.Equal(bp, k.wantB) || !bytes.Equal(up, k.pub) {
 					run.fail("Blind/Unblind differ from the sequential result")
 				} else {
 					c.Class("blind_results_ok")
 				}
 			case 3:
 				run.enter()
-				sig := ed25519.BlindKeySignWithContext(priv, msg, blind, ctx)
+				sig := ed25519.BlindKeySignWithContext(k.priv, msg, blind, ctx)
 				run.leave()
-				if !stded.Verify(stded.PublicKey(wantB), msg, sig) {
+				if !stded.Verify(stded.PublicKey(k.wantB), msg, sig) {
 					run.fail("BlindKeySignWithContext produced an invalid signature")
 				} else {
 					c.Class("sign_results_ok")
+					mu.Lock()
+					blindSigs = append(blindSigs, made{ki, msg, sig})
+					mu.Unlock()
 				}
 			}
 		}
 	})
+	for _, m := range blindSigs {
+		if !bytes.Equal(ed25519.BlindKeySignWithContext(keys[m.ki].priv, m.msg, blind, ctx), m.sig) {
+			run.fail("a blinded-key signature made while other goroutines were signing differs from the one a sequential call with the same arguments makes")
+			break
+		}
+	}
 }
 
 // keyRSA returns a NEW private key object with the same value and no precomputed CRT values, as a key
